@@ -113,6 +113,31 @@ def evalNotIn (x : Val) (vs : List Val) : TV := not3 (evalIn x vs)
 
 Values of token trees are scalars or comma lists of scalars (the right side of `IN`). -/
 
+/-- what the model leaves abstract about a backend: the value of a function call and of a
+    CAST to a named type (the theorems hold for every choice) -/
+class Abs where
+  fn : String → List Val → Val
+  castF : String → Val → Val
+
+/-- `COALESCE(v₁, …)`: the first value that is not NULL -/
+def coalesceVal (args : List Val) : Val := (args.find? (fun v => v != Val.null)).getD .null
+
+/-- `coalesce` is interpreted, every other function is abstract -/
+def fnVal [Abs] (name : String) (args : List Val) : Val :=
+  if name = "coalesce" then coalesceVal args else Abs.fn name args
+
+/-- searched CASE over the flattened operand list `[c₁, r₁, c₂, r₂, …, (else)]` -/
+def caseSearchedVal : List Val → Val
+  | [] => .null
+  | [e] => e
+  | c :: r :: rest => if truth c = some true then r else caseSearchedVal rest
+
+/-- simple CASE: `v` compared with each `cᵢ` -/
+def caseSimpleVal (v : Val) : List Val → Val
+  | [] => .null
+  | [e] => e
+  | c :: r :: rest => if evalCmp .eq v c = some true then r else caseSimpleVal v rest
+
 inductive SV
   | s (v : Val)
   | l (vs : List Val)
@@ -129,7 +154,7 @@ def atomVal (env : String → Val) (a : Atom) : SV :=
   | .true_ => .s (.int 1)
   | .false_ => .s (.int 0)
   | .emptySet => .l []
-  | .other => .s .null
+  | .other => .s (.str a.text)
 
 def SV.scalar : SV → Val
   | .s v => v
@@ -142,9 +167,13 @@ def SV.items : SV → List Val
 open SaVerif.Pratt in
 /-- comparison / boolean / IN symbols over `SV`; every other symbol yields NULL (the
     theorems that use `stdI` only speak about these symbols) -/
-def stdInf (s : Sym) (a b : SV) : SV :=
+def stdInf [Abs] (s : Sym) (a b : SV) : SV :=
   match s with
   | .comma => .l (a.items ++ b.items)
+  | .when_ => .l (a.items ++ b.items)
+  | .then_ => .l (a.items ++ b.items)
+  | .else_ => .l (a.items ++ b.items)
+  | .as_ => (match b.scalar with | .str n => .s (Abs.castF n a.scalar) | _ => .s .null)
   | .eq => .s (ofTV (evalCmp .eq a.scalar b.scalar))
   | .ne => .s (ofTV (evalCmp .ne a.scalar b.scalar))
   | .lt => .s (ofTV (evalCmp .lt a.scalar b.scalar))
@@ -164,7 +193,7 @@ def stdInf (s : Sym) (a b : SV) : SV :=
   | _ => .s .null
 
 open SaVerif.Pratt in
-def stdI (env : String → Val) : Interp SV where
+def stdI [Abs] (env : String → Val) : Interp SV where
   atom := atomVal env
   pre := fun s v =>
     match s with
@@ -176,6 +205,12 @@ def stdI (env : String → Val) : Interp SV where
   br := fun k v =>
     match k with
     | .paren => v
-    | _ => .s .null
+    | .cast => v
+    | .fn name => .s (fnVal name v.items)
+    | .caseSearched => .s (caseSearchedVal v.items)
+    | .caseSimple =>
+      (match v.items with
+       | x :: rest => .s (caseSimpleVal x rest)
+       | [] => .s .null)
 
 end SaVerif.Expr
